@@ -1,6 +1,7 @@
 """C06 bounded stand-in: fingerprint_url ignores case, port, language subdomain, gl/hl and optionally the public suffix."""
 import random
 
+from bcheck import history
 from bcheck.common import Collector, args, run_sharded, call
 
 from ural import fingerprint_url
@@ -32,8 +33,11 @@ def swapcase_component(u, which):
 def bases():
     out = []
     # incl. hosts that are a bare public suffix, that already start with a country-code-like label, and an escaped upper-case query key
-    for host in ("example.com", "blog.example.com", "shop.blog.example.co.uk", "facebook.com", "youtube.com", "télérama.fr", "co.uk", "blogspot.com", "bo.nordland.no", "amp-example.com"):
-        for tail in ("", "/Some/Path", "/a/b.html?id=1&Q=Abc", "/watch?v=abcdefghijk", "/a?x=1#/Route/1", "/p?%4A=1&b=2", "/p?_rdr=1&id=2"):
+    for host in ("example.com", "blog.example.com", "shop.blog.example.co.uk", "facebook.com", "youtube.com", "télérama.fr", "co.uk", "blogspot.com", "bo.nordland.no", "amp-example.com",
+                 "api.x.com", "help.t.co", "a.b.c.example.org"):
+        for tail in ("", "/Some/Path", "/a/b.html?id=1&Q=Abc", "/watch?v=abcdefghijk", "/a?x=1#/Route/1", "/p?%4A=1&b=2", "/p?_rdr=1&id=2",
+                     # letters whose lower-case form depends on their position (final sigma), accented letters
+                     "/\u039f\u0394\u039f\u03a3/\u00c9t\u00e9?q=\u0391\u03a3", "/\u03bf\u03b4\u03bf\u03c3"):
             out.append((host, tail))
     return out
 
@@ -145,6 +149,8 @@ ODD = ["", " ", "http://[a.com/", "http://a.com:99999/", "a.com:x/", "?", "#", "
 def main():
     a = args("C06")
     col = Collector("C06", a.tier, a.seed)
+    if a.replay and history.replayed(a, col, "C06"):
+        return
     if a.replay:
         import json
         rp = json.load(open(a.replay))
@@ -181,6 +187,7 @@ def main():
                 "(strip_suffix=True) also combined with language label + port + case} x strip_suffix x platform_aware; negative clauses: a two-letter label that is no country "
                 "code, and a language label on a two-label host, must NOT be stripped; the result never carries scheme / userinfo / port. "
                 "distinct_nontrivial = (transformation, base URL) pairs")
+    history.run(col, "C06", a.tier == "quick")
     col.dump(a.out)
 
 
